@@ -77,12 +77,21 @@ def leg_typed_join(ns, res, spec):
 
     big = [2 ** 53, 2 ** 53 + 1, 2 ** 53 + 2, 2 ** 62 + 1, 2 ** 62 + 3]
     for n in range(spec['n']):
-        front = ['pandas', 'sqlite'][n % 2]
+        front = ['pandas', 'sqlite', 'pandas', 'sqlite', 'list'][n % 5]
         pool = rng.choice([[1, 2, 3, 4], big + [1, 2], [0, 1, 2 ** 53, 2 ** 53 + 1], [10, 20, 30]])
         na, nb = rng.randrange(1, 6), rng.randrange(1, 6)
         A = [[rng.choice(pool), rng.choice(['x', 'y', 'z'])] for _ in range(na)]
-        bkind = rng.choice(['int+float', 'int+float', 'int+str', 'int+int+float'])
-        if bkind == 'int+float':
+        bkind = rng.choice(['int+float', 'int+float', 'int+str', 'int+int+float', 'floatkey+str'])
+        if front == 'list':
+            # equal numbers of different types in one key column (1, 1.0, True): pairing is by equality, every emitted cell keeps its own type
+            mixed = [1, 1.0, True, 2, 2.0, 0, False, 0.0, 3.5, 3]
+            A = [[rng.choice(mixed), rng.choice(['x', 'y', 'z'])] for _ in range(na)]
+            B = [[rng.choice(mixed), rng.choice(['p', 'q'])] for _ in range(nb)]
+            bkind = 'mixed-number-types'
+        elif bkind == 'floatkey+str':
+            # an integer key column joined with a REAL / float64 key column: 2 pairs with 2.0, nothing pairs with 2.5; beyond 2**53 the float is its own value
+            B = [[float(rng.choice(pool)) + rng.choice([0.0, 0.0, 0.0, 0.5]), rng.choice(['p', 'q'])] for _ in range(nb)]
+        elif bkind == 'int+float':
             B = [[rng.choice(pool), rng.choice([0.5, 1.5, 2.0, -1.25])] for _ in range(nb)]
         elif bkind == 'int+str':
             B = [[rng.choice(pool), rng.choice(['p', 'q'])] for _ in range(nb)]
@@ -94,6 +103,9 @@ def leg_typed_join(ns, res, spec):
             dfb = pd.DataFrame({bn[j]: pd.Series([r[j] for r in B], dtype=('object' if isinstance(B[0][j], str) else ('float64' if isinstance(B[0][j], float) else 'int64'))) for j in range(len(bn))})
             conn = None
             make = lambda: (ns.pandas.DataframeIterator(dfa, normalize_column_names=True), ns.pandas.SingleDataframeRegistry(dfb, 'b', True))
+        elif front == 'list':
+            conn = None
+            make = lambda: (ns.engine.TableIterator([list(r) for r in A], list(an)), ns.engine.ListTableRegistry([ns.engine.ListTableInfo('b', [list(r) for r in B], list(bn))]))
         else:
             conn = sqlite3.connect(':memory:')
             conn.execute('CREATE TABLE t (id INTEGER, tag TEXT)')
@@ -268,7 +280,7 @@ def summarize(tier, seed, m):
     shapes = sorted(k[6:] for k in m['counters'] if k.startswith('shape:'))
     return {
         'rule': 'pairs of small tables with duplicate keys on both sides (m x n blocks), ragged / empty A and B, None cells; JOIN / INNER JOIN / LEFT JOIN / LEFT OUTER JOIN / STRICT LEFT JOIN; 1-3 key pairs with == or =, either side order, NR / aNR / a.NR against bNR / b.NR / fields in every spelling; downstream rotating over plain select, WHERE (incl. b-field is None), ORDER BY, DISTINCT, DISTINCT COUNT, UNNEST, aggregates (COUNT, ARRAY_AGG of b-fields and bNR, grouped by an a-field), UPDATE with and without WHERE, TOP, b.* expansion. a typed front-ends leg: dataframes (int64 key next to float64 / object / int64 columns - all-numeric join frames included) through DataframeIterator + SingleDataframeRegistry and sqlite tables (INTEGER / REAL / TEXT) through SqliteRecordIterator + SqliteDbRegistry, integer keys up to 2**62 (beyond float precision), JOIN / LEFT JOIN / STRICT LEFT JOIN, three select shapes, every emitted field compared by value and type with a nested-loop pairing; a CSV leg: the generated joins (string cells) with both tables in files - header lines, ragged rows, and in every other case comment lines in both files that are not records - through query_csv, rows compared with the reference after the stringification a CSV sink applies; distinct_nontrivial = distinct (query, A, B) with a non-empty reference result or a predicted error.',
-        'required': ['csv_join_runs:comments', 'csv_join_runs:plain', 'typed_join_runs:pandas', 'typed_join_runs:sqlite', 'py_cases', 'join_table_read_pattern_checks', 'fan_out_cases', 'predicted_error_a_side', 'predicted_error_b_side', 'js_cases', 'join:STRICT LEFT JOIN', 'join:LEFT OUTER JOIN', 'keypairs:3'],
+        'required': ['csv_join_runs:comments', 'csv_join_runs:plain', 'typed_join_runs:pandas', 'typed_join_runs:sqlite', 'typed_join_runs:list', 'py_cases', 'join_table_read_pattern_checks', 'fan_out_cases', 'predicted_error_a_side', 'predicted_error_b_side', 'js_cases', 'join:STRICT LEFT JOIN', 'join:LEFT OUTER JOIN', 'keypairs:3'],
         'extra': {'shapes_seen': shapes},
         'assumptions': ['rv/model/refsem.py expand() is the join semantics of the statement'],
     }
